@@ -135,3 +135,134 @@ Proof.
     destruct (Nat.leb_spec size (length (@nil N))) as [H|_]; [cbn in H; lia|].
     cbn [read1 script rem app length]. destruct (Nat.leb_spec size 0); [lia|]. eexists; reflexivity.
 Qed.
+
+(* ---- an injected error at ANY point of the script ---- *)
+Fixpoint offered (sc : list step) : nat :=
+  match sc with [] => 0 | Chunk k _ :: sc' => k + offered sc' | Fail _ :: sc' => offered sc' end.
+
+Lemma read1_chunk r room k ewd sc d e r' : script r = Chunk k ewd :: sc -> read1 r room = (d, e, r') ->
+  rem r = d ++ rem r' /\ length d <= room /\ length d <= k /\ script r' = sc /\
+  (e = RNil \/ (e = REOF /\ rem r' = [])).
+Proof.
+  intros Es. unfold read1. rewrite Es. destruct (rem r) as [|c rm] eqn:Er.
+  - intros H; inversion H; subst. cbn [rem script length]. repeat split; try lia. right. split; reflexivity.
+  - intros H; inversion H; subst. cbn [rem script].
+    split; [symmetry; apply firstn_skipn|]. split; [rewrite firstn_length; lia|]. split; [rewrite firstn_length; lia|].
+    split; [reflexivity|].
+    match goal with |- context [if ?cnd then REOF else RNil] => destruct cnd eqn:E end; [|left; reflexivity].
+    right. split; [reflexivity|]. apply andb_true_iff in E as [E _]. apply andb_true_iff in E as [_ E].
+    apply Nat.eqb_eq in E. rewrite E. apply (skipn_all (c :: rm)).
+Qed.
+
+(* io.ReadFull when the script fails after a failure-free prefix: either the header was completed before the
+   failing step was reached (same outcome as without the failure; the prefix offered enough bytes for that), or
+   exactly that error is returned *)
+Lemma read_full_fail : forall pre fuel e post rm size acc x,
+  no_fail pre -> x = acc ++ rm -> length acc <= size -> length pre + 1 <= fuel ->
+  (exists got er r', read_full_f fuel (mk_reader rm (pre ++ Fail e :: post)) size acc = (got, er, r') /\ got = firstn size x /\
+                     (er = RNil \/ er = REOF \/ er = RUnexpectedEOF) /\ x = got ++ rem r' /\
+                     (size <= length acc + offered pre \/ length rm <= offered pre)) \/
+  (exists got r', read_full_f fuel (mk_reader rm (pre ++ Fail e :: post)) size acc = (got, RErr e, r') /\ length got < size /\
+                  x = got ++ rem r' /\ length got <= length acc + offered pre).
+Proof.
+  induction pre as [|st pre IH]; intros fuel e post rm size acc x Hn Hx Hl Hf;
+    (destruct fuel as [|f]; [cbn in Hf; lia|]); cbn [read_full_f].
+  - destruct (Nat.leb_spec size (length acc)) as [Hge|Hlt].
+    + left. exists acc, RNil, (mk_reader rm ([] ++ Fail e :: post)). split; [reflexivity|]. split; [|split; [auto|split; [exact Hx|left; lia]]].
+      rewrite Hx. rewrite firstn_app_le by lia. symmetry. apply firstn_all2. lia.
+    + right. cbn [app read1 script rem]. rewrite app_nil_r.
+      destruct (Nat.leb_spec size (length acc)); [lia|].
+      exists acc, (mk_reader rm post). split; [reflexivity|]. split; [lia|]. split; [exact Hx|cbn; lia].
+  - inversion Hn as [|? ? Hst Hn']; subst. destruct st as [k ewd|bad]; [|destruct Hst].
+    destruct (Nat.leb_spec size (length acc)) as [Hge|Hlt].
+    + left. eexists acc, RNil, _. split; [reflexivity|]. split; [|split; [auto|split; [reflexivity|left; lia]]].
+      rewrite firstn_app_le by lia. symmetry. apply firstn_all2. lia.
+    + destruct (read1 (mk_reader rm ((Chunk k ewd :: pre) ++ Fail e :: post)) (size - length acc)) as [[d er] r'] eqn:E1.
+      destruct (read1_chunk (mk_reader rm ((Chunk k ewd :: pre) ++ Fail e :: post)) _ k ewd (pre ++ Fail e :: post) _ _ _ eq_refl E1) as (Hr & Hd & Hdk & Hs & He).
+      cbn [rem] in Hr.
+      assert (Hx' : acc ++ rm = (acc ++ d) ++ rem r') by (rewrite <- app_assoc, <- Hr; reflexivity).
+      assert (Hl' : length (acc ++ d) <= size) by (rewrite app_length; lia).
+      assert (Hlen : length rm = length d + length (rem r')) by (rewrite Hr; apply app_length).
+      destruct He as [->|[-> Hrem]].
+      * destruct r' as [rm' sc']. cbn [script rem] in *. subst sc'.
+        destruct (IH f e post rm' size (acc ++ d) (acc ++ rm) Hn' Hx' Hl') as [HA|HB]; [cbn in Hf; lia| |].
+        -- left. destruct HA as (got & er & r'' & E & Hg & Her & Hxx & Hoff). exists got, er, r''.
+           split; [exact E|]. split; [exact Hg|]. split; [exact Her|]. split; [exact Hxx|].
+           rewrite app_length in Hoff. cbn [offered]. lia.
+        -- right. destruct HB as (got & r'' & E & Hlt' & Hxx & Hoff). exists got, r''. split; [exact E|]. split; [exact Hlt'|].
+           split; [exact Hxx|]. rewrite app_length in Hoff. cbn [offered]. lia.
+      * left. rewrite Hrem, app_nil_r in Hx'. rewrite Hrem in Hlen. cbn [length] in Hlen.
+        destruct (Nat.leb_spec size (length (acc ++ d))) as [Hge|Hlt'].
+        -- exists (acc ++ d), RNil, r'. split; [reflexivity|]. split; [|split; [auto|split; [rewrite Hrem, app_nil_r; exact Hx'|right; cbn [offered]; lia]]].
+           rewrite Hx'. symmetry. apply firstn_all2. lia.
+        -- exists (acc ++ d), (match acc ++ d with [] => REOF | _ => RUnexpectedEOF end), r'.
+           split; [reflexivity|]. split; [|split; [destruct (acc ++ d); auto|split; [rewrite Hrem, app_nil_r; exact Hx'|right; cbn [offered]; lia]]].
+           rewrite Hx'. symmetry. apply firstn_all2. lia.
+Qed.
+
+Lemma read_all_fail : forall pre fuel e post rm bufsz acc x,
+  no_fail pre -> x = acc ++ rm -> length pre + 1 <= fuel ->
+  (exists r', read_all_f fuel (mk_reader rm (pre ++ Fail e :: post)) bufsz acc = (x, RNil, r') /\ rem r' = [] /\ length rm <= offered pre) \/
+  (exists got r', read_all_f fuel (mk_reader rm (pre ++ Fail e :: post)) bufsz acc = (got, RErr e, r') /\ x = got ++ rem r' /\
+                  length got <= length acc + offered pre).
+Proof.
+  induction pre as [|st pre IH]; intros fuel e post rm bufsz acc x Hn Hx Hf;
+    (destruct fuel as [|f]; [cbn in Hf; lia|]); cbn [read_all_f].
+  - right. cbn [app read1 script rem]. rewrite app_nil_r. exists acc, (mk_reader rm post). split; [reflexivity|].
+    split; [exact Hx|cbn; lia].
+  - inversion Hn as [|? ? Hst Hn']; subst. destruct st as [k ewd|bad]; [|destruct Hst].
+    destruct (read1 (mk_reader rm ((Chunk k ewd :: pre) ++ Fail e :: post)) (S bufsz)) as [[d er] r'] eqn:E1.
+    destruct (read1_chunk (mk_reader rm ((Chunk k ewd :: pre) ++ Fail e :: post)) _ k ewd (pre ++ Fail e :: post) _ _ _ eq_refl E1) as (Hr & Hd & Hdk & Hs & He).
+    cbn [rem] in Hr.
+    assert (Hx' : acc ++ rm = (acc ++ d) ++ rem r') by (rewrite <- app_assoc, <- Hr; reflexivity).
+    assert (Hlen : length rm = length d + length (rem r')) by (rewrite Hr; apply app_length).
+    destruct He as [->|[-> Hrem]].
+    + destruct r' as [rm' sc']. cbn [script rem] in *. subst sc'.
+      destruct (IH f e post rm' bufsz (acc ++ d) (acc ++ rm) Hn' Hx') as [HA|HB]; [cbn in Hf; lia| |].
+      * left. destruct HA as (r'' & E & Hr'' & Hoff). exists r''. split; [exact E|]. split; [exact Hr''|]. cbn [offered]. lia.
+      * right. destruct HB as (got & r'' & E & Hxx & Hoff). exists got, r''. split; [exact E|]. split; [exact Hxx|].
+        rewrite app_length in Hoff. cbn [offered]. lia.
+    + left. exists r'. rewrite Hrem, app_nil_r in Hx'. rewrite <- Hx'. split; [reflexivity|]. split; [exact Hrem|].
+      rewrite Hrem in Hlen. cbn [length offered] in *. lia.
+Qed.
+
+(* C05, errors: whatever failure-free prefix precedes the failing read, DetectReader either completed the header
+   before reaching it (the outcome of the failure-free case) or returns errMIME together with exactly that error *)
+Theorem reader_error_anywhere limit x pre e post :
+  no_fail pre ->
+  (exists r', detect_reader_read limit (mk_reader x (pre ++ Fail e :: post)) = (Some (hdr limit x), RNil, r')) \/
+  (exists r', detect_reader_read limit (mk_reader x (pre ++ Fail e :: post)) = (None, RErr e, r')).
+Proof.
+  intros Hn. unfold detect_reader_read. destruct (N.eqb_spec limit 0%N) as [->|Hl].
+  - destruct (read_all_fail pre (fuel_of (mk_reader x (pre ++ Fail e :: post))) e post x 511 [] x Hn eq_refl) as [(r' & -> & _)|(got & r' & -> & _)].
+    { unfold fuel_of. cbn [script rem]. rewrite app_length. cbn. lia. }
+    + left. exists r'. reflexivity.
+    + right. exists r'. reflexivity.
+  - cbn [rem]. set (size := N.to_nat (N.min limit (N.of_nat (S (length x))))).
+    destruct (read_full_fail pre (fuel_of (mk_reader x (pre ++ Fail e :: post))) e post x size [] x Hn eq_refl (Nat.le_0_l _))
+      as [(got & er & r' & -> & Hgot & He & _)|(got & r' & -> & _)].
+    { unfold fuel_of. cbn [script rem]. rewrite app_length. cbn. lia. }
+    + left. exists r'. rewrite (hdr_as_firstn limit x Hl). fold size. rewrite <- Hgot.
+      destruct He as [->|[->| ->]]; reflexivity.
+    + right. exists r'. reflexivity.
+Qed.
+
+(* ... and the error it is whenever the prefix offers fewer bytes than the header needs and than the input holds
+   ("before the header is complete"), however many bytes that is *)
+Theorem reader_error_before_header limit x pre e post :
+  no_fail pre -> offered pre < length x -> (limit = 0 \/ N.of_nat (offered pre) < limit)%N ->
+  exists r', detect_reader_read limit (mk_reader x (pre ++ Fail e :: post)) = (None, RErr e, r').
+Proof.
+  intros Hn Hoff Hlim. unfold detect_reader_read. destruct (N.eqb_spec limit 0%N) as [->|Hl].
+  - destruct (read_all_fail pre (fuel_of (mk_reader x (pre ++ Fail e :: post))) e post x 511 [] x Hn eq_refl) as [(r' & _ & _ & Hbad)|(got & r' & -> & _)].
+    { unfold fuel_of. cbn [script rem]. rewrite app_length. cbn. lia. }
+    + lia.
+    + exists r'. reflexivity.
+  - cbn [rem]. set (size := N.to_nat (N.min limit (N.of_nat (S (length x))))).
+    destruct Hlim as [?|Hlim]; [contradiction|].
+    destruct (read_full_fail pre (fuel_of (mk_reader x (pre ++ Fail e :: post))) e post x size [] x Hn eq_refl (Nat.le_0_l _))
+      as [(got & er & r' & _ & _ & _ & _ & Hbad)|(got & r' & -> & _)].
+    { unfold fuel_of. cbn [script rem]. rewrite app_length. cbn. lia. }
+    + subst size. cbn [length] in Hbad. lia.
+    + exists r'. reflexivity.
+Qed.
